@@ -218,6 +218,11 @@ def run(chk):
         if ns and not (any("declared.lower" in x for x in sides) and any("declared.upper" in x for x in sides)):
             chk.add(Finding("R12-side", "R12-side::coverage", "check_limits_valid does not compare both declared limits", cb.where()))
     chk.rule("R12-side", "comparisons of check_limits_valid that involve one side only (declared/calculated lower, or declared/calculated upper)", ns, floor=2)
+    # the limits that are compared are read from the file by get_float / get_double (hex notation included)
+    from . import textrules
+    textrules.r01_hexfloat(chk, rule="R12-hexfloat")
+    from . import c13
+    c13.shared(chk, "R12-list", "the conversion and the record layout of an element are found by name through ItemList")
     chk.assumptions += ["not decided: the value of the tolerance and the exactness ('reported exactly when')"]
 
 
